@@ -20,6 +20,8 @@ def lit_text(lit):
 
 
 def clause_text(cl):
+    if cl.get("text"):  # a clause given as surface text (used where no reference needs its AST)
+        return cl["text"]
     heads = "; ".join((("%s::" % p) if p is not None else "") + atom_str(h) for p, h in cl["heads"])
     if cl["body"]:
         return heads + " :- " + ", ".join(lit_text(l) for l in cl["body"]) + "."
